@@ -278,9 +278,9 @@ def cases(tier):
     big = [["create", i] for i in range(12)] + [["delete", 9, "idx"], ["delete", 9, "name"], ["reopen"], ["create", 9],
                                                  ["delete", 1, "id"], ["delete", 9, "negidx"], ["create", 10]]
     for kind in KINDS:
-        out.append({"kind": kind, "names": N12, "ops": big, "hp": None})
+        out.append({"kind": kind, "names": N12, "ops": big, "hp": None, "single": True})     # (prefixes are not cases of their own)
         if KINDS[kind]["link"] or kind in AB_KINDS:
-            out.append({"kind": kind, "names": N12, "ops": big, "hp": "AAA"})
+            out.append({"kind": kind, "names": N12, "ops": big, "hp": "AAA", "single": True})
     out.append({"kind": "dims11", "names": [], "ops": [], "hp": None})
     # containers with more members than any page / batch size one might think of (130, thorough 300)
     NBIG = 130 if tier == "quick" else 300
@@ -288,9 +288,9 @@ def cases(tier):
     huge = [["create", i] for i in range(NBIG)] + [["delete", 128, "name"], ["delete", 64, "id"], ["reopen"], ["create", 128], ["delete", 0, "idx"]]
     for kind in KINDS:
         if not KINDS[kind]["link"] and "@2" not in kind and "@3" not in kind:
-            out.append({"kind": kind, "names": NH, "ops": huge, "hp": None, "check_from": NBIG - 1})
+            out.append({"kind": kind, "names": NH, "ops": huge, "hp": None, "check_from": NBIG - 1, "single": True})
     for kind in ("group.data_arrays", "tag.references", "data_array.sources@nested", "group.sources"):
-        out.append({"kind": kind, "names": NH, "ops": huge, "hp": None, "check_from": NBIG - 1})
+        out.append({"kind": kind, "names": NH, "ops": huge, "hp": None, "check_from": NBIG - 1, "single": True})
     for kind in KINDS:
         ab = KINDS[kind]["link"] or kind in AB_KINDS
         if tier == "quick":
@@ -663,7 +663,8 @@ def run_case(case):
                     r.viol("C03|%s|id-not-unique" % kind, "%s: two entities of the file share an id" % kind, {})
                     ok = False
             if not ok:
-                if not last:
+                if not last and not case.get("single"):
+                    # the shorter history is a case of its own and reports the disagreement
                     del r.violations[nviol:]
                     r.bump("pruned_after_earlier_violation")
                 return r
